@@ -282,6 +282,9 @@ func c13Record(tier string, seed int64, emit func(interface{})) {
 				m = rng.Intn(20000)
 			}
 			name := printable(1 + rng.Intn(30))
+			if i%7 == 3 && j == 0 { // a header line longer than any small fixed read buffer
+				name = printable(4090 + rng.Intn(9000))
+			}
 			if rng.Intn(3) == 0 {
 				name += " " + printable(rng.Intn(20))
 			}
@@ -352,6 +355,9 @@ func c13Record(tier string, seed int64, emit func(interface{})) {
 					}
 					if rng.Intn(25) == 0 {
 						lines = append(lines, ";"+printable(rng.Intn(10)))
+					}
+					if i%7 == 4 && rng.Intn(6) == 0 { // a comment line longer than any small fixed read buffer
+						lines = append(lines, ";"+printable(4090+rng.Intn(9000)))
 					}
 				}
 			}
